@@ -127,3 +127,14 @@ func (s *VerifPex) Dump() string {
 	}
 	return "pending=" + f(st.pending) + " pendingDel=" + f(st.pendingDel) + " sent=" + f(st.sent)
 }
+
+// VerifFastLink puts the peer's estimators in the state they are in after a
+// few seconds of sustained transfer over a long fat pipe (a large measured
+// download rate, a round-trip time of two seconds), so that the delay bound of
+// maybeRequest does not bind and only the advertised queue depth limits the
+// pipeline.  Call it while the peer is quiescent.
+func (p *Peer) VerifFastLink() {
+	p.rtt = 2 * time.Second
+	p.download.Start()
+	p.download.Accumulate(64 << 20)
+}
